@@ -123,7 +123,7 @@ Definition check (c : case) : list Z :=
                      | Some maps => rawind_b maps (o_rawind o)
                      | None => if all_equal (x_probes x) then zl_eq (o_rawind o) (x_cmap x) else true
                      end in
-          let g1 := zl_eq (y_rawind y) (o_rawind o) && zl_eq (model_nan_idx (x_st x) (x_sc x)) nan in
+          let g1 := zl_eq (y_rawind y) (o_rawind o) && zl_eq (model_nan_idx (x_ncl x) (x_st x) (x_sc x)) nan in
           flag 1 (g1 && g21 && g23 && g24 && g25 && g26) ++
           flag 21 g21 ++ flag 22 g22 ++ flag 23 g23 ++ flag 24 g24 ++ flag 25 g25 ++ flag 26 g26 ++ flag 27 g27
       end
